@@ -14,6 +14,7 @@ What the documentation establishes (sources in brackets) and what this check the
     not change the variable's fill MODE  [pnetcdf.h comments, man page, RELEASE_NOTES 1.9.0, examples/C/fill_mode.c]
   * ncmpi_inq_var_fill reports no_fill and the user-defined or default value  [dispatcher comment, fill_mode.c]
   * ncmpi_fill_var_rec on a variable whose fill mode is off: NC_ENOTFILL  [pnetcdf.h]
+  * _FillValue can only be set in the define scope that defines the variable, later: NC_ELATEFILL  [RELEASE_NOTES 1.9.0]
   * variables added by a redefinition are filled including their share of the existing records  [property statement,
     fill_added_recs/fillerup_aggregate]
 
@@ -46,12 +47,13 @@ from pv.common import compare_dump, decode_compare
 
 PROP = "C16"
 RULE = ("Hypothesis-generated histories on CDF-1/2/5 files, k=1..4 ranks, dimension lengths 1,2,3,5,7 (element counts mostly not "
-        "divisible by k), 1-3 define scopes (create, redef, close+reopen+redef) each defining 1-4 variables of any external type "
+        "divisible by k), 1-3 define scopes (create, redef, close+reopen+redef; thorough: up to 4, lengths also 4 and 11) defining 1-4 "
+        "(later scopes 0-3) variables of any external type "
         "with set_fill(NC_FILL/NC_NOFILL) before/between/after the definitions, def_var_fill(no_fill 0/1, with/without value), "
         "_FillValue attributes (put_att, type of the variable, one element; del_att), enddef or _enddef with alignments; data phases with "
         "collective put_vara of sub-blocks split over the ranks, fill_var_rec on existing and new records (numrecs 0..5), "
-        "fill_var_rec on no-fill variables (NC_ENOTFILL). Oracle: FileM model with masks (unknown/written/fill): after every "
-        "enddef, on request and at the end every rank reads every variable (dumpall) and written and filled elements must match, "
+        "fill_var_rec on no-fill variables (NC_ENOTFILL), _FillValue put on a variable of an earlier scope (NC_ELATEFILL). "
+        "Oracle: FileM model with masks (unknown/written/fill): after every enddef, on request and at the end every rank reads every variable (dumpall) and written and filled elements must match, "
         "inq_var_fill must report the modelled mode and fill value, set_fill must return the previous mode; the closed file is "
         "decoded by pv/cdfspec.py and compared again; snapshot comparison around enddef for no-fill variables added by a "
         "redefinition. Non-trivial = a scope that adds a fill-mode record variable to a file with numrecs>=2 and k>=2, or "
@@ -67,6 +69,7 @@ ASSUMPTIONS = ["single node, local POSIX file system, OpenMPI 4.1.4 + ROMIO; a P
 
 MODE = {1: 0, 2: 0x200, 5: 0x20}
 NC_FILL_MODE, NC_NOFILL_MODE = 0, 0x100
+NC_ELATEFILL = -122
 MAXREC = 5
 DIMLENS = [1, 2, 3, 5, 7]
 
@@ -78,7 +81,7 @@ SWITCHES = {
     # asserts it (inq_var_fill, fill_var_rec).  False: their mode becomes unknown to the model.
     # Confirmed discrepancy on the unchanged tree (ncmpio_set_fill overwrites no_fill of ALL variables), replay
     # replays/C16/set-fill-in-redef-changes-old-variable-mode.json (which forces the switch on).
-    "set_fill_redef_keeps_old_modes": False,
+    "set_fill_redef_keeps_old_modes": True,
 }
 
 
@@ -210,6 +213,8 @@ def case_strategy(draw, tier="quick"):
                         choices += ["del_fv"]
                 if G.chance(draw, 10):
                     choices += ["gatt"]
+                if mo.first_new > 0 and G.chance(draw, 15):
+                    choices += ["late_fv"]
             a = draw(st.sampled_from(choices))
             if a == "def_var":
                 todo -= 1
@@ -238,6 +243,8 @@ def case_strategy(draw, tier="quick"):
                 fvs = draw(st.integers(0, 10 ** 6))
                 mo.att_fv(v, user_fill(mo.vars[v]["xt"], fvs))
                 sc["defs"].append({"a": "att_fv", "v": v, "fv": fvs})
+            elif a == "late_fv":
+                sc["defs"].append({"a": "late_fv", "v": draw(st.integers(0, mo.first_new - 1)), "fv": draw(st.integers(0, 10 ** 6))})
             elif a == "del_fv":
                 v = draw(st.sampled_from([i for i in range(mo.first_new, len(mo.vars)) if mo.vars[i]["att"] is not None]))
                 mo.att_fv(v, None)
@@ -383,6 +390,14 @@ def build(case):
                 mo.att_fv(v, val)
                 p.op("put_att", step=True, f="f0", v=v, name=hx("_FillValue"), xt=xt, mt=M.XT_NATIVE_MT[xt], n=1, hex=native_bytes(val, xt))
                 labels.add("att_FillValue")
+            elif kind == "late_fv":
+                v = a["v"]
+                if si == 0 or v >= mo.first_new:
+                    continue
+                xt = mo.vars[v]["xt"]
+                p.op("put_att", step=True, f="f0", v=v, name=hx("_FillValue"), xt=xt, mt=M.XT_NATIVE_MT[xt], n=1,
+                     hex=native_bytes(user_fill(xt, a["fv"]), xt), expect=NC_ELATEFILL, what="put_att _FillValue on a variable of an earlier scope")
+                labels.add("att_FillValue_late_ELATEFILL")
             elif kind == "del_fv":
                 v = a["v"]
                 if not mo.is_new(v) or mo.vars[v]["att"] is None:
@@ -591,7 +606,7 @@ def coverage_extra(stats, tier):
 
 
 def campaign(ctx):
-    n = {"quick": 120, "thorough": 2500}[ctx.tier]     # per worker
+    n = {"quick": 150, "thorough": 2500}[ctx.tier]     # per worker
     runner.run_hypothesis(ctx, case_strategy(ctx.tier), runner.guarded(run_case), n)
 
 
